@@ -25,7 +25,8 @@ import time
 
 VERIF = os.path.dirname(os.path.dirname(os.path.abspath(__file__)))
 REPO = os.environ.get("VERIF_REPO", "/repo")
-WORKROOT = os.path.join(VERIF, ".work")
+OUTBASE = os.environ.get("VERIF_OUT", VERIF)    # evidence/ and replays/ go here (seed evaluations use a scratch dir)
+WORKROOT = os.path.join(OUTBASE, ".work")
 HARNESS_DIR = os.path.join(VERIF, "harness")
 STUBS_DIR = os.path.join(VERIF, "stubs")
 SHIM_DIR = os.path.join(VERIF, "shim")
@@ -559,7 +560,7 @@ def run_check(prop_id, tier, queries, meta, extra_evidence=None, pre_results=Non
     seed = int(os.environ.get("VERIF_SEED", "0") or 0)
     os.makedirs(WORKROOT, exist_ok=True)
     workdir = tempfile.mkdtemp(prefix="w%d_" % os.getpid(), dir=WORKROOT)
-    replays_dir = os.path.join(VERIF, "replays", prop_id)
+    replays_dir = os.path.join(OUTBASE, "replays", prop_id)
     results = list(pre_results or [])
     # memory-aware parallelism: never schedule more than ~56 GB of per-query caps at once
     maxmem = max([q.mem_gb for q in queries] + [1])
@@ -681,8 +682,8 @@ def run_check(prop_id, tier, queries, meta, extra_evidence=None, pre_results=Non
     }
     if extra_evidence:
         ev["coverage"].update(extra_evidence)
-    os.makedirs(os.path.join(VERIF, "evidence"), exist_ok=True)
-    with open(os.path.join(VERIF, "evidence", "%s.json" % prop_id), "w") as f:
+    os.makedirs(os.path.join(OUTBASE, "evidence"), exist_ok=True)
+    with open(os.path.join(OUTBASE, "evidence", "%s.json" % prop_id), "w") as f:
         json.dump(ev, f, indent=1, default=str)
     print("%s tier=%s: %d queries, %d hold, %d violated (%d known), %d inconclusive, %.0fs wall" %
           (prop_id, tier, len(results), n_holds, n_viol, len(known_hits), len(inconclusive), wall))
